@@ -875,17 +875,21 @@ def check_tuklib_exit(ck, prog, rule="C17-STATUS"):
     start, stop = stream_blocks("stdout"), stream_blocks("stderr")
     if not start:
         raise AnalysisBroken("tuklib_exit: fclose(stdout) not found")
-    # from the close of stdout to the handling of stderr; a block that tests show_error is entered (its statements run
-    # before the test) but not left
-    seen, st = set(), list(start)
-    while st:
-        x = st.pop()
-        if x is None or x in seen or x in stop:
-            continue
-        seen.add(x)
-        if x not in barrier:
-            st.extend(f.blocks[x].succs)
-    ok = bool(stores & seen)
+    # from the close of stdout to the handling of stderr
+    def reach(polarity):
+        seen, st = set(), list(start)
+        while st:
+            x = st.pop()
+            if x is None or x in seen or x in stop:
+                continue
+            seen.add(x)
+            if x in barrier and len(f.blocks[x].succs) == 2:
+                st.append(f.blocks[x].succs[polarity])
+            else:
+                st.extend(f.blocks[x].succs)
+        return seen
+    # the store is reached whichever way every test of show_error goes
+    ok = bool(stores & reach(0)) and bool(stores & reach(1))
     ck.ob(rule, "tuklib_exit:status-not-silenced", ok, common.where(f),
           "tuklib_exit: status = err_status does not depend on show_error" if ok else
           "tuklib_exit(): `status = err_status` is reached only through a test of show_error: with -qq (show_error == 0) a failed "
